@@ -224,12 +224,14 @@ func (p *prepared) run(choose chooser) (string, error) {
 		}
 		return digest(patch.Bytes(), sig.Bytes(), []byte(fmt.Sprintf("%d/%d", dctx.FreshBytes, dctx.ReusedBytes))), nil
 	case "rediff":
+		rstats := &bsdiff.DiffStats{}
 		rc, err := rediff.NewContext(rediff.Params{
 			PatchReader:           seeksource.FromBytes(p.patch),
 			Consumer:              wh.Quiet(),
 			Compression:           sc.Comp.Settings(),
 			SuffixSortConcurrency: sc.Conc,
 			Partitions:            sc.Partitions,
+			BsdiffStats:           rstats,
 		})
 		if err != nil {
 			return "", err
@@ -248,9 +250,12 @@ func (p *prepared) run(choose chooser) (string, error) {
 			ms = append(ms, fmt.Sprintf("%d<-%d/%d", k, v.TargetIndex, v.NumBytes))
 		}
 		sort.Strings(ms)
-		return digest(out.Bytes(), []byte(strings.Join(ms, ","))), nil
+		return digest(out.Bytes(), []byte(strings.Join(ms, ",")), []byte(fmt.Sprintf("biggest-add=%d", rstats.BiggestAdd))), nil
 	case "bsdiff":
-		bdc := &bsdiff.DiffContext{Partitions: sc.Partitions, SuffixSortConcurrency: sc.Conc}
+		// statistics are asked for: they are shared state of the scan pipeline too, and the
+		// one deterministic figure among them belongs to the output
+		stats := &bsdiff.DiffStats{}
+		bdc := &bsdiff.DiffContext{Partitions: sc.Partitions, SuffixSortConcurrency: sc.Conc, Stats: stats}
 		var msgs bytes.Buffer
 		oldB, newB := []byte(sc.OldS), []byte(sc.NewS)
 		if sc.OldSpec != "" {
@@ -268,7 +273,7 @@ func (p *prepared) run(choose chooser) (string, error) {
 		if err != nil {
 			return "", err
 		}
-		return digest(msgs.Bytes()), nil
+		return digest(msgs.Bytes(), []byte(fmt.Sprintf("biggest-add=%d", stats.BiggestAdd))), nil
 	}
 	return "", fmt.Errorf("bad kind %q", sc.Kind)
 }
